@@ -29,7 +29,7 @@ def coll_ops(ctx, marker):
 ITER_BAD = {"rev", "skip", "take", "step_by", "filter", "skip_while", "take_while", "filter_map", "rposition", "next_back", "nth", "nth_back", "last", "chain", "zip", "cycle", "peekable", "map_while"}
 
 
-def su1_mutators(ctx, rep, marker="Subscriber<", what="subscriber list", floors=(1, 1, 2)):
+def su1_mutators(ctx, rep, marker="Subscriber<", what="subscriber list", floors=(1, 1, 1)):
     R = "SU1"
     n_push = n_retain = n_clear = 0
     for s, m in coll_ops(ctx, marker):
@@ -206,15 +206,28 @@ def su2_unsubscribe(ctx, rep):
 
 
 def _resolve_upvars(ctx, body, t, depth=0):
-    """follow upvar terms to the creating bodies: returns (body, term)"""
+    """follow upvar terms to the creating bodies, and parameters of private helpers to their
+    unique call site: returns (body, term)"""
     t0 = strip_clone(strip_wrap(t))
-    while t0[0] == "upvar" and body.is_closure() and depth < 6:
-        r = ctx.prog.upvar_term(body, t0[1])
-        if r is None:
-            break
-        body, t = r
-        t0 = strip_clone(strip_wrap(t))
+    while depth < 8:
         depth += 1
+        if t0[0] == "upvar" and body.is_closure():
+            r = ctx.prog.upvar_term(body, t0[1])
+            if r is None:
+                break
+            body, t = r
+            t0 = strip_clone(strip_wrap(t))
+            continue
+        if t0[0] == "param" and not body.is_closure() and body.j.get("vis") != "Public":
+            callers = ctx.prog.callers(body)
+            if len(callers) != 1:
+                break
+            cs = callers[0]
+            t = ctx.prog.bp(cs.body).arg_term(cs.bb, t0[1] - 1)
+            body = cs.body
+            t0 = strip_clone(strip_wrap(t))
+            continue
+        break
     return body, t0
 
 
@@ -340,7 +353,7 @@ def lc1_unsubscribe_sites(ctx, rep):
         n += 1
         where_ok = s.body.path in retain_preds or (s.body.path, s.bb) in gnodes
         rep.check(where_ok, R, "unsubscribe-site:" + short(s.body.path), s.where, "on_unsubscribe called from the unsubscribe predicate / shutdown release", "on_unsubscribe called from %s: a third release path" % short(s.body.path))
-    rep.floor(R, "on_unsubscribe call sites", n, 3)
+    rep.floor(R, "on_unsubscribe call sites", n, 2)
 
 
 def lc3_release_under_list_lock(ctx, rep):
